@@ -25,6 +25,9 @@ import WacProofs.Lemmas.EncAgg2
   another import, although `1.0.0` is the highest (the only) implied import name of its track.
   `WF.defNames` is still needed too (`wiring_encode_counterexample` in `C02.lean`: the pinned
   definition-rename shape).
+
+  `Props/C02Graph.lean` replaces `IfaceNamed agg` by a hypothesis on the graph value,
+  `ForeignSingle g` (`WacModel/Spec/Foreign.lean`): `wiring_encode_graph`.
 -/
 namespace Wac.Props.C02
 open Wac Wac.Spec
